@@ -480,7 +480,8 @@ int flatcc_verify_buffer_header_with_size(const void *buf, size_t *bufsiz, const
     verify_runtime(size_field <= *bufsiz - offset_size, flatcc_verify_error_runtime_buffer_size_less_than_size_field);
     if (fid != 0) {
         id2 = read_thash_identifier(fid);
-        id = read_thash(buf, offset_size);
+        /* The identifier follows the size field and the root offset. */
+        id = read_thash(buf, 2 * offset_size);
         verify(id2 == 0 || id == id2, flatcc_verify_error_identifier_mismatch);
     }
     *bufsiz = size_field + offset_size;
@@ -525,7 +526,8 @@ int flatcc_verify_typed_buffer_header_with_size(const void *buf, size_t *bufsiz,
     verify_runtime(size_field <= *bufsiz - offset_size, flatcc_verify_error_runtime_buffer_size_less_than_size_field);
     if (thash != 0) {
         id2 = thash;
-        id = read_thash(buf, offset_size);
+        /* The identifier follows the size field and the root offset. */
+        id = read_thash(buf, 2 * offset_size);
         verify(id2 == 0 || id == id2, flatcc_verify_error_identifier_mismatch);
     }
     *bufsiz = size_field + offset_size;
@@ -541,7 +543,7 @@ int flatcc_verify_struct_as_root(const void *buf, size_t bufsiz, const char *fid
 int flatcc_verify_struct_as_root_with_size(const void *buf, size_t bufsiz, const char *fid, size_t size, uint16_t align)
 {
     check_result(flatcc_verify_buffer_header_with_size(buf, &bufsiz, fid));
-    return verify_struct((uoffset_t)bufsiz, 0, read_uoffset(buf, 0), (uoffset_t)size, align);
+    return verify_struct((uoffset_t)bufsiz, uoffset_size, read_uoffset(buf, uoffset_size), (uoffset_t)size, align);
 }
 
 int flatcc_verify_struct_as_typed_root(const void *buf, size_t bufsiz, flatbuffers_thash_t thash, size_t size, uint16_t align)
